@@ -238,6 +238,9 @@ pub fn config_by_name(name: &str) -> Option<SpaceCfg> {
     Some(match name.split('-').next().unwrap_or("") {
         "A" => base_cfg(name, ops_structure(true), n, 2),
         "Aplain" => base_cfg(name, ops_structure(false), n, 2),
+        // same structure alphabet over the names {a, ab}: one name is a string prefix of the other, so
+        // string-level (instead of component-level) path comparisons inside rivia become visible
+        "Ap" => base_cfg(name, ops_structure(true).iter().map(prefix_names).collect(), n, 2),
         "B" => {
             let mut c = base_cfg(name, ops_content(), n, 1);
             c.max_content = 3;
@@ -258,6 +261,11 @@ pub fn config_by_name(name: &str) -> Option<SpaceCfg> {
         },
         _ => return None,
     })
+}
+
+/// rename b -> ab in every path argument
+pub fn prefix_names(op: &Op) -> Op {
+    op.map_paths(|p, _| p.replace('b', "ab"))
 }
 
 pub fn query_ops() -> Vec<Op> {
@@ -308,6 +316,7 @@ fn single_target(op: &Op) -> bool {
 
 pub struct C01Obs {
     pub queries: Vec<Op>,
+    pub queries_prefix_names: Vec<Op>,
     pub compared: AtomicU64,
     pub skipped: AtomicU64,
     pub queries_run: AtomicU64,
@@ -319,6 +328,7 @@ impl C01Obs {
     pub fn new() -> C01Obs {
         C01Obs {
             queries: query_ops(),
+            queries_prefix_names: query_ops().iter().map(prefix_names).collect(),
             compared: AtomicU64::new(0),
             skipped: AtomicU64::new(0),
             queries_run: AtomicU64::new(0),
@@ -374,7 +384,8 @@ impl Observer for C01Obs {
                 sm.push(J::obj([("history", J::s(sv.space.history_text(sv.idx))), ("tree", J::s(st.tree.render())), ("cwd", J::s(&st.cwd))]));
             }
         }
-        for q in &self.queries {
+        let queries = if sv.space.cfg.name.starts_with("Ap-") { &self.queries_prefix_names } else { &self.queries };
+        for q in queries {
             let out = apply(sv.fs, q);
             self.queries_run.fetch_add(1, Ordering::Relaxed);
             let pred = reffs::query(st, q);
@@ -414,8 +425,8 @@ pub fn stats_json(name: &str, st: &SpaceStats) -> J {
 
 pub fn tier_configs(tier: Tier) -> Vec<&'static str> {
     match tier {
-        Tier::Quick => vec!["A-3", "C-2", "B-2", "D-3"],
-        Tier::Thorough => vec!["A-4", "C-3", "B-2", "D-3"],
+        Tier::Quick => vec!["A-3", "Ap-2", "C-2", "B-2", "D-3"],
+        Tier::Thorough => vec!["A-4", "Ap-3", "C-3", "B-2", "D-3"],
     }
 }
 
@@ -512,7 +523,7 @@ fn replay(ctx: &Ctx, p: &std::path::Path) -> i32 {
             }
         }
     } else if let (Some(q), Ok(pre)) = (case.get("query").and_then(|x| x.as_str()), &pre) {
-        for qo in query_ops() {
+        for qo in query_ops().into_iter().chain(query_ops().iter().map(prefix_names)) {
             if qo.render() == q {
                 let out = apply(&fs, &qo);
                 let pred = reffs::query(pre, &qo);
